@@ -218,6 +218,7 @@ def midpoints(t):
 
 def check_midpoints(t, fields, idx, tm, resampled, n_resampled):
     out = []
+    lo, hi = own_times_reference(t, None)
     if n_resampled != len(tm):
         return [('resample-mid', None, f'resampling at {len(tm)} times returned {n_resampled} points')]
     for name in POINT_FIELDS:
@@ -228,8 +229,16 @@ def check_midpoints(t, fields, idx, tm, resampled, n_resampled):
         for k, (i, x) in enumerate(zip(idx, tm)):
             a, b = float(t[i]), float(t[i + 1])
             va, vb = float(v[i]), float(v[i + 1])
-            exp = va + (vb - va) * ((x - a) / (b - a))
-            if not _close(float(r[k]), exp, max(abs(va), abs(vb))):
+            w = (x - a) / (b - a)
+            exp = va + (vb - va) * w
+            ok = _close(float(r[k]), exp, max(abs(va), abs(vb)))
+            if not ok and (lo[i] != hi[i] or lo[i + 1] != hi[i + 1]):
+                # a neighbour recorded twice (same time stamp): either recorded value may be the node
+                for ca in v[lo[i] : hi[i] + 1]:
+                    for cb in v[lo[i + 1] : hi[i + 1] + 1]:
+                        e2 = float(ca) + (float(cb) - float(ca)) * w
+                        ok = ok or _close(float(r[k]), e2, max(abs(float(ca)), abs(float(cb))))
+            if not ok:
                 out.append(('resample-mid', int(i), f'{name} at t={_fmt(x)} s (between points {i} and {i + 1}) is {_fmt(r[k])}, linear interpolation of {_fmt(va)} and {_fmt(vb)} gives {_fmt(exp)}', name))  # fmt: skip
                 break
     return out
